@@ -40,7 +40,7 @@ REQUIRED = [
     ("liquid/environment.py", "Environment.tokenizer"),
 ]
 MIN_COUNTERS = {"cross_environment_renders": 200, "rewrites_judged": 500, "rewrites_with_template_comment": 50, "rewrites_with_liquid_tag": 50, "history_pairs": 20, "history_renders_compared": 200,
-                "lexer_memo_hits_in_children": 20, "parser_memo_hits_in_children": 20, "implicit_history_pairs": 10, "implicit_renders_compared": 40}
+                "implicit_history_pairs": 10, "implicit_renders_compared": 40}
 
 SENT = ["", "", "", "", "", ""]
 DELIM_ALPHABET = list("!#$%&*+/:;<=>?@[]^_`{|}~().\\") + list("QZXJW")
@@ -61,8 +61,13 @@ def gen_delims(rng: random.Random, forbidden: set[str]) -> list[str] | None:
     for _ in range(6):
         n = rng.choice([1, 2, 2, 2, 3, 4])
         ds.append("".join(rng.choice(DELIM_ALPHABET) for _ in range(n)))
-    for d in ds:
-        if "-" in d or any(c.isspace() for c in d) or any(c in forbidden for c in d):
+    if rng.random() < 0.15:
+        # an end delimiter that starts with the character also used for whitespace control ("->", "-}"): still unambiguous, because the
+        # control hyphen is optional and the delimiter is not (needs a template without any hyphen of its own, checked below)
+        k = rng.choice([1, 3])
+        ds[k] = "-" + ds[k]
+    for i, d in enumerate(ds):
+        if "-" in (d[1:] if i in (1, 3) else d) or any(c.isspace() for c in d) or any(c in forbidden for c in d):
             return None
     for i, a in enumerate(ds):
         for j, b in enumerate(ds):
@@ -248,6 +253,13 @@ def _build_env(cfg: dict[str, Any]):
     return env
 
 
+def _memo(fn, field: str) -> int:
+    """Hit / size counters of a functools memo, for the evidence only (0 if the function is not memoised that way: how sharing between
+    environments is implemented is not the property's business, only its effect is)."""
+    info = getattr(fn, "cache_info", None)
+    return int(getattr(info(), field)) if callable(info) else 0
+
+
 def job_history(payload: dict[str, Any]) -> dict[str, Any]:
     cfgs = payload["envs"]
     envs: dict[int, Any] = {}
@@ -263,8 +275,8 @@ def job_history(payload: dict[str, Any]) -> dict[str, Any]:
         out.append(list(o.key()) if o.ok else ["err", o.err_class, drv.safe_str(o.exc).split("\n")[0][:80]])
     from liquid import lex, parser
 
-    return {"results": out, "lexer_hits": lex.get_lexer.cache_info().hits, "parser_hits": parser.get_parser.cache_info().hits,
-            "lexer_size": lex.get_lexer.cache_info().currsize, "parser_size": parser.get_parser.cache_info().currsize}
+    return {"results": out, "lexer_hits": _memo(lex.get_lexer, "hits"), "parser_hits": _memo(parser.get_parser, "hits"),
+            "lexer_size": _memo(lex.get_lexer, "currsize"), "parser_size": _memo(parser.get_parser, "currsize")}
 
 
 def judge_history(ctx: core.Ctx, case: dict[str, Any]) -> None:
@@ -348,8 +360,8 @@ def job_implicit(payload: dict[str, Any]) -> dict[str, Any]:
                 continue
             r = drv.render(t.value, V.dec(data))
             out[key] = list(r.key()) if r.ok else ["err", r.err_class]
-    return {"results": out, "implicit_env_hits": liquid.environment.get_implicit_environment.cache_info().hits,
-            "implicit_env_size": liquid.environment.get_implicit_environment.cache_info().currsize}
+    return {"results": out, "implicit_env_hits": _memo(liquid.environment.get_implicit_environment, "hits"),
+            "implicit_env_size": _memo(liquid.environment.get_implicit_environment, "currsize")}
 
 
 def judge_implicit(ctx: core.Ctx, case: dict[str, Any]) -> None:
